@@ -153,6 +153,8 @@ func (h *inFlightRequestsHandler) borrowStreamId() (int16, error) {
 	if h.isClosed() {
 		return -1, fmt.Errorf("%v: handler closed", h)
 	}
+	h.inFlightLock.RLock()
+	defer h.inFlightLock.RUnlock()
 	select {
 	case id, ok := <-h.streamIds:
 		if !ok {
@@ -169,6 +171,9 @@ func (h *inFlightRequestsHandler) releaseStreamId(id int16) error {
 	if h.isClosed() {
 		return fmt.Errorf("%v: handler closed", h)
 	}
+	// hold the read lock around the (non-blocking) send: close() closes the channel under the write lock
+	h.inFlightLock.RLock()
+	defer h.inFlightLock.RUnlock()
 	select {
 	case h.streamIds <- id:
 		log.Debug().Msgf("%v: released stream id: %v", h, id)
@@ -194,10 +199,10 @@ func (h *inFlightRequestsHandler) close() {
 			delete(h.inFlight, streamId)
 			inFlight.close(fmt.Errorf("%v: handler closed", h))
 		}
-		h.inFlightLock.Unlock()
 		streamIds := h.streamIds
 		h.streamIds = nil
 		close(streamIds)
+		h.inFlightLock.Unlock()
 		log.Trace().Msgf("%v: successfully closed", h)
 	}
 }
